@@ -21,6 +21,11 @@ pub enum SdOp {
     MarkUninit,
     /// erase_single_block_enabled(): one more reader of the card-specific-data register
     EraseEnabled,
+    /// the card is taken out and one of another kind and capacity put in: capacity query (old card), exchange +
+    /// mark_card_uninit, then card type, capacity, register flag and a read on the new card
+    Swap,
+    /// (internal) the exchange itself
+    SwapRaw,
 }
 
 #[derive(Clone, Debug, PartialEq)]
@@ -82,9 +87,23 @@ pub struct Conv {
     pub sd: SdCard<SimSpi, NoDelay>,
 }
 
+thread_local! {
+    /// `AcquireOpts::acquire_retries` of the drivers built by `conv` on this thread (the crate's default is 50)
+    static ACQUIRE_RETRIES: std::cell::Cell<u32> = const { std::cell::Cell::new(50) };
+}
+
+/// Run `f` with drivers configured for `n` identification retries.
+pub fn with_retries<T>(n: u32, f: impl FnOnce() -> T) -> T {
+    let old = ACQUIRE_RETRIES.with(|r| r.replace(n));
+    let out = f();
+    ACQUIRE_RETRIES.with(|r| r.set(old));
+    out
+}
+
 pub fn conv(card: Card, crc: bool) -> Conv {
     let card = Rc::new(RefCell::new(card));
-    let sd = SdCard::new_with_options(SimSpi(card.clone()), NoDelay, AcquireOpts { use_crc: crc, acquire_retries: 50 });
+    let retries = ACQUIRE_RETRIES.with(|r| r.get());
+    let sd = SdCard::new_with_options(SimSpi(card.clone()), NoDelay, AcquireOpts { use_crc: crc, acquire_retries: retries });
     Conv { card, sd }
 }
 
@@ -130,6 +149,7 @@ pub fn exec(c: &Conv, op: SdOp, op_index: usize) -> SdRes {
             Err(e) => SdRes::Err(format!("{:?}", e)),
         },
         SdOp::CardType => SdRes::Type(type_code(sd.get_card_type())),
+        SdOp::Swap | SdOp::SwapRaw => SdRes::Ok,
         SdOp::EraseEnabled => match sd.erase_single_block_enabled() {
             Ok(b) => SdRes::Num(b as u64),
             Err(e) => SdRes::Err(format!("{:?}", e)),
@@ -210,6 +230,7 @@ fn op_from_str(s: &str) -> Option<SdOp> {
         "NumBytes" => SdOp::NumBytes,
         "CardType" => SdOp::CardType,
         "EraseEnabled" => SdOp::EraseEnabled,
+        "Swap" => SdOp::Swap,
         "MarkUninit" => SdOp::MarkUninit,
         _ => return None,
     })
@@ -241,9 +262,49 @@ pub fn run_conversation(kind: Kind, crc: bool, csd: [u8; 16], ops: &[SdOp], ch: 
     card.monitor = Some(Box::new(Monitor::new()));
     let c = conv(card, crc);
     let mut model: BTreeMap<u32, [u8; 512]> = BTreeMap::new();
-    let cap = c.card.borrow().capacity_blocks;
+    let mut cap = c.card.borrow().capacity_blocks;
     let mut out = RunOut { c12: vec![], c14: vec![], exchanges: 0, commands: 0, outcomes: vec![] };
+    let (mut kind, mut csd) = (kind, csd);
+    let mut seq: Vec<SdOp> = Vec::new();
+    for op in ops {
+        if *op == SdOp::Swap {
+            seq.extend([SdOp::NumBlocks, SdOp::SwapRaw, SdOp::CardType, SdOp::NumBlocks, SdOp::NumBytes, SdOp::EraseEnabled, SdOp::Read(1, 1)]);
+        } else {
+            seq.push(*op);
+        }
+    }
+    let ops = &seq[..];
     for (i, op) in ops.iter().enumerate() {
+        if *op == SdOp::SwapRaw {
+            // another card: next kind, a register that differs in capacity and in ERASE_BLK_EN from the default one
+            let k2 = match kind {
+                Kind::V1Sdsc => Kind::V2Sdhc,
+                Kind::V2Sdhc => Kind::V2Sdsc,
+                Kind::V2Sdsc => Kind::V1Sdsc,
+            };
+            let mut csd2 = match k2 {
+                Kind::V2Sdhc => csd_v2(3),
+                _ => csd_v1(20, 3, 9),
+            };
+            csd2[10] &= !0x40;
+            {
+                let mut cb = c.card.borrow_mut();
+                let mut nc = Card::new(k2, csd2);
+                nc.chooser = cb.chooser.clone();
+                nc.monitor = cb.monitor.take();
+                nc.exchanges = cb.exchanges;
+                nc.txns = cb.txns;
+                nc.horizon = cb.horizon;
+                *cb = nc;
+            }
+            c.sd.mark_card_uninit();
+            kind = k2;
+            csd = csd2;
+            cap = c.card.borrow().capacity_blocks;
+            model.clear();
+            out.outcomes.push("Swap: Ok".to_string());
+            continue;
+        }
         let r = exec(&c, *op, i);
         out.outcomes.push(format!("{:?}: {}", op, r.class()));
         let in_range = match op {
@@ -340,6 +401,7 @@ fn opname(op: &SdOp) -> &'static str {
         SdOp::NumBytes => "num_bytes",
         SdOp::CardType => "get_card_type",
         SdOp::EraseEnabled => "erase_single_block_enabled",
+        SdOp::Swap | SdOp::SwapRaw => "card-exchange",
         SdOp::MarkUninit => "mark_card_uninit",
     }
 }
@@ -363,6 +425,7 @@ fn op_alphabet(kind: Kind, tier: &str, with_beyond: bool) -> Vec<SdOp> {
     a.push(SdOp::NumBytes);
     a.push(SdOp::CardType);
     a.push(SdOp::EraseEnabled);
+    a.push(SdOp::Swap);
     a.push(SdOp::MarkUninit);
     if with_beyond {
         // calls the card refuses without any fault: reads and writes beyond its capacity
@@ -576,6 +639,14 @@ pub fn run_c12(tier: &str) -> i32 {
 /// judges the whole conversation. When the first call is a multi-block write that the fault interrupts, the host cannot
 /// end it properly (the card is gone), so only the busy, framing and ordering rules are judged there.
 fn after_error_case(kind: Kind, crc: bool, fault: &Fault, first: SdOp) -> (Vec<(String, String)>, [String; 3]) {
+    after_error_case_r(kind, crc, fault, first, 50)
+}
+
+fn after_error_case_r(kind: Kind, crc: bool, fault: &Fault, first: SdOp, retries: u32) -> (Vec<(String, String)>, [String; 3]) {
+    with_retries(retries, || after_error_case_inner(kind, crc, fault, first))
+}
+
+fn after_error_case_inner(kind: Kind, crc: bool, fault: &Fault, first: SdOp) -> (Vec<(String, String)>, [String; 3]) {
     let mut card = Card::new(kind, default_csd(kind));
     card.fault = fault.clone();
     card.monitor = Some(Box::new(Monitor::new()));
@@ -632,9 +703,22 @@ fn after_error_case(kind: Kind, crc: bool, fault: &Fault, first: SdOp) -> (Vec<(
 /// card and two more calls.
 fn after_error_runs(tier: &str) -> (Vec<Violation>, u64) {
     let kinds = [Kind::V1Sdsc, Kind::V2Sdsc, Kind::V2Sdhc];
-    let mut jobs: Vec<(Kind, bool, Fault, SdOp)> = Vec::new();
+    let mut jobs: Vec<(Kind, bool, Fault, SdOp, u32)> = Vec::new();
     for &k in &kinds {
         for crc in [true, false] {
+            // few identification retries configured: the card is gone / stuck / erroring from the very first bytes
+            for retries in [0u32, 1, 2] {
+                let first = SdOp::Read(1, 1);
+                jobs.push((k, crc, Fault::None, first, retries));
+                jobs.push((k, crc, Fault::NeverReady, first, retries));
+                for at in 0..24u64 {
+                    jobs.push((k, crc, Fault::Silent { at }, first, retries));
+                    jobs.push((k, crc, Fault::BusyForever { at }, first, retries));
+                }
+                for txn in 0..6u64 {
+                    jobs.push((k, crc, Fault::SpiError { txn }, first, retries));
+                }
+            }
             // length of a fault-free identification + one read, in bytes and transactions
             let mut card = Card::new(k, default_csd(k));
             card.fault = Fault::None;
@@ -645,13 +729,13 @@ fn after_error_runs(tier: &str) -> (Vec<Violation>, u64) {
                 (cb.exchanges, cb.txns)
             };
             let first = SdOp::Read(1, 1);
-            jobs.push((k, crc, Fault::NeverReady, first));
+            jobs.push((k, crc, Fault::NeverReady, first, 50));
             let (bs, ts) = if tier == "quick" { (5, 3) } else { (1, 1) };
             for at in (0..bytes).step_by(bs) {
-                jobs.push((k, crc, Fault::Silent { at }, first));
+                jobs.push((k, crc, Fault::Silent { at }, first, 50));
             }
             for txn in (0..txns).step_by(ts) {
-                jobs.push((k, crc, Fault::SpiError { txn }, first));
+                jobs.push((k, crc, Fault::SpiError { txn }, first, 50));
             }
             // a multi-block write during which the card goes silent / stays busy for ever, at every byte of the write
             let mut card = Card::new(k, default_csd(k));
@@ -663,17 +747,16 @@ fn after_error_runs(tier: &str) -> (Vec<Violation>, u64) {
             exec(&c, firstw, 1);
             let total = c.card.borrow().exchanges;
             for at in ident..total + 2 {
-                // inside the 512 payload bytes every 32nd position is enough to tell the cases apart in the quick tier
-                jobs.push((k, crc, Fault::BusyForever { at }, firstw));
+                                jobs.push((k, crc, Fault::BusyForever { at }, firstw, 50));
                 if tier != "quick" || at % 3 == 0 {
-                    jobs.push((k, crc, Fault::Silent { at }, firstw));
+                    jobs.push((k, crc, Fault::Silent { at }, firstw, 50));
                 }
             }
         }
     }
     let res: Vec<Vec<Violation>> = sd_map(jobs.len(), |i| {
-        let (kind, crc, fault, first) = &jobs[i];
-        let (vs, r) = after_error_case(*kind, *crc, fault, *first);
+        let (kind, crc, fault, first, retries) = &jobs[i];
+        let (vs, r) = after_error_case_r(*kind, *crc, fault, *first, *retries);
         vs.into_iter()
             .map(|(sig, detail)| {
                 v(
@@ -685,6 +768,7 @@ fn after_error_runs(tier: &str) -> (Vec<Violation>, u64) {
                         j["prop"] = json!("C14");
                         j["after_error"] = json!(true);
                         j["first"] = json!(format!("{:?}", first));
+                        j["retries"] = json!(retries);
                         j
                     },
                 )
@@ -1052,6 +1136,39 @@ pub fn run_c13(tier: &str) -> i32 {
         run_faulty(*k, *crc, f.clone(), &inp)
     });
     evals += jobs.len() as u64;
+    // (e) the same stereotypes at the very start of the conversation with 0, 1 and 2 identification retries configured
+    let mut rjobs: Vec<(Kind, bool, Fault, u32)> = Vec::new();
+    for &k in &kinds {
+        for crc in [true, false] {
+            for retries in [0u32, 1, 2] {
+                rjobs.push((k, crc, Fault::None, retries));
+                rjobs.push((k, crc, Fault::NeverReady, retries));
+                for at in [0u64, 1, 6, 7, 8, 9, 14, 30] {
+                    rjobs.push((k, crc, Fault::Silent { at }, retries));
+                    rjobs.push((k, crc, Fault::BusyForever { at }, retries));
+                    rjobs.push((k, crc, Fault::Garbage { at }, retries));
+                }
+                for txn in 0..6u64 {
+                    rjobs.push((k, crc, Fault::SpiError { txn }, retries));
+                }
+            }
+        }
+    }
+    let rres: Vec<(Vec<Violation>, u64)> = sd_map(rjobs.len(), |i| {
+        let (k, crc, f, retries) = &rjobs[i];
+        let mut inp = fault_json(*k, *crc, f);
+        inp["retries"] = json!(retries);
+        with_retries(*retries, || run_faulty(*k, *crc, f.clone(), &inp))
+    });
+    evals += rjobs.len() as u64;
+    rep.cov("runs_with_0_1_2_identification_retries", json!(rjobs.len()));
+    for (vv, n) in rres {
+        exchanges += n;
+        for mut x in vv {
+            x.sig = format!("{}/few-retries", x.sig);
+            add(&mut viols, x);
+        }
+    }
     for (vv, n) in res {
         exchanges += n;
         for x in vv {
@@ -1175,14 +1292,15 @@ pub fn replay_input(inp: &Value) -> i32 {
     } else if inp["after_error"].as_bool() == Some(true) {
         let fault = fault_from(&inp["fault"]);
         let first = inp["first"].as_str().and_then(op_from_str).unwrap_or(SdOp::Read(1, 1));
-        let (vs, r) = after_error_case(kind, crc, &fault, first);
+        let (vs, r) = after_error_case_r(kind, crc, &fault, first, inp["retries"].as_u64().unwrap_or(50) as u32);
         println!("  first call {:?}: {}", first, r[0]);
         println!("  healthy card: read -> {}", r[1]);
         println!("  healthy card: write -> {}", r[2]);
         found.extend(vs);
     } else if prop == "C13" {
         let f = fault_from(&inp["fault"]);
-        let (vv, _) = run_faulty(kind, crc, f, inp);
+        let retries = inp["retries"].as_u64().unwrap_or(50) as u32;
+        let (vv, _) = with_retries(retries, || run_faulty(kind, crc, f, inp));
         for x in vv {
             found.push((x.sig, x.detail));
         }
